@@ -121,6 +121,33 @@ def isa_trace_ops(rng, nimg, ninsn):
         if rng.random() < 0.5:
             ops.append({"op": "continue"})
             ops.append({"op": "isa_run", "n": ninsn // 2, "key_every": 0})
+    ops += io_exec_ops(rng, 12)
+    return ops
+
+
+def io_exec_ops(rng, n):
+    """instructions FETCHED from I/O addresses: a program in the input registers FC..FF (reached by a jump, then wrapping to address 0) and an
+    instruction whose opcode lies at 0xEE / 0xEF with its operand bytes at 0xF0.. (board registers) - no wait cycle for any of these reads"""
+    ops = []
+    multi = [[251, None, 16], [251, None, 17], [255, None, 18], [240 + rng.randrange(16), rng.choice(DEFINED2), 2], [247, None, rng.choice(DEFINED2)],
+             [251, None, 64], [32, 2, 68], [255, 252, 16], [243, None, 0x1B], [68, 69, 70]]
+    for _ in range(n):
+        ops.append({"op": "new", "cfg": {"inr": [0, 0, 0, 0]}})
+        pat = [b if b is not None else rng.choice([0, 7, 0x80, 0xEF, 0xF0, 0xFC, 0xFF, rng.randrange(256)]) for b in rng.choice(multi)]
+        inr = (pat + [rng.choice([68, 2, 70, 16, 96])])[:4]
+        where = rng.choice([0xFC, 0xFC, 0xFD, 0xEE, 0xEF, 0xED])
+        img = [251, where, 19] + [2] * 3 + [rng.randrange(256) for _ in range(6)]      # LD PC, where
+        if where < 0xF0:
+            img = (img + [2] * 240)[:240]
+            tail = [b if b is not None else rng.randrange(256) for b in rng.choice(multi)]
+            for i, b in enumerate(tail):
+                if where + i < 240:
+                    img[where + i] = b
+        ops.append({"op": "load", "image": img, "ss": rng.choice([0, 16]), "ps": 255})
+        for k in range(4):
+            ops.append({"op": "set_input", "k": k, "v": inr[k]})
+        ops.append({"op": "set_di1", "v": rng.choice([16, 17, 64, 2, 68, rng.randrange(256)])})
+        ops.append({"op": "isa_run", "n": 14, "key_every": rng.choice([0, 0, 5])})
     return ops
 
 
